@@ -577,6 +577,8 @@ class Dataset(AbstractDataset, dict, OpMixin, GetSetDelAttrMixin):
 
         for old, new in iterkeys:
             val = super(Dataset, ds).__getitem__(old) # same as ds[old]
+            if new != old and new in ds.keys():
+                del ds[new] # replace an existing variable, and drop the axes only it used
             super(Dataset, ds).__setitem__(new, val)
             if old != new:
                 super(Dataset, ds).__delitem__(old)
